@@ -313,7 +313,11 @@ func init() {
 		sc := &engine.Scenario{
 			Name: "C05-cache", Cfgs: cfgs([]int{1}, []int{0}, one, u), Filters: relFilters(), Slots: 2,
 			Oracle:   drv.Oracle{World: true, Filters: true, Lock: true, Stats: true},
-			Preludes: relPreludes(model.PathMapN)[1:],
+			Preludes: append(relPreludes(model.PathMapN)[1:], []model.Op{
+				{K: model.OpNew, Path: model.PathMapN, Cs: ct.Of(ct.P)}, {K: model.OpNew, Path: model.PathMapN, Cs: ct.Of(ct.P, ct.R1), T: rel(ct.R1, 0)},
+				{K: model.OpNew, Path: model.PathMapN, Cs: ct.Of(ct.R1), T: rel(ct.R1, 0)},
+				{K: model.OpRegister, F: 0}, {K: model.OpRegister, F: 2}, {K: model.OpRegister, F: 3},
+			}),
 			Alphabet: alpha, Depth: d,
 		}
 		return &Check{ID: "C05", Scenarios: []*engine.Scenario{sc},
@@ -326,7 +330,7 @@ func init() {
 		if t == Thorough {
 			d = 5
 		}
-		u := []ct.Comp{ct.P, ct.Q, ct.R1, ct.T9}
+		u := []ct.Comp{ct.P, ct.Q, ct.R1, ct.T9, ct.R2, ct.S}
 		filters := []model.FilterSpec{
 			{Params: []ct.Comp{ct.P}},                                   // f0
 			{Params: []ct.Comp{ct.P, ct.Q}},                             // f1
@@ -334,6 +338,9 @@ func init() {
 			{Params: []ct.Comp{ct.R1}},                                  // f3
 			{Params: []ct.Comp{ct.P}, Without: ct.Of(ct.R1)},            // f4
 			{Params: []ct.Comp{ct.P}, Without: ct.Of(ct.Q) | ct.Of(ct.R1)}, // f5
+			{Params: []ct.Comp{ct.R1, ct.R2}, Rels: rel(ct.R1, 0)},          // f6: fixed target, second relation open
+			{Params: []ct.Comp{ct.S}},                                       // f7
+			{Params: []ct.Comp{ct.S}, Without: ct.Of(ct.Q)},                 // f8
 		}
 		alpha := func(reg bool) func(m *model.Model) []model.Op {
 			return func(m *model.Model) []model.Op {
@@ -370,6 +377,34 @@ func init() {
 					)
 				}
 				ops = append(ops, model.Op{K: model.OpExchangeBatch, F: 3, Cs: ct.Of(ct.Q), Rm: ct.Of(ct.R1), Fn: true})
+				// two relation components: registered filter with a fixed target plus a per-batch target
+				if len(tg) >= 3 && m.NumAlive() <= 6 {
+					for _, a := range tg[1:] {
+						for _, b := range tg[1:] {
+							ops = append(ops, model.Op{K: model.OpNew, Path: model.PathMapN, Cs: ct.Of(ct.R1, ct.R2), T: []model.RelT{{C: ct.R1, T: a}, {C: ct.R2, T: b}}})
+						}
+					}
+				}
+				for _, t := range tg[1:] {
+					ops = append(ops,
+						model.Op{K: model.OpRemoveEntities, F: 6, QT: rel(ct.R2, t), Fn: true},
+						model.Op{K: model.OpSetRelBatch, Path: model.PathMapN, F: 6, QT: rel(ct.R2, t), T: rel(ct.R2, model.ZeroTarget), Fn: true},
+					)
+				}
+				ops = append(ops, model.Op{K: model.OpRemoveEntities, F: 6})
+				// pointer-bearing component moved in batches into tables that already hold rows
+				if m.NumAlive() <= 6 {
+					ops = append(ops,
+						model.Op{K: model.OpNew, Path: model.PathMapN, Cs: ct.Of(ct.S)},
+						model.Op{K: model.OpNewBatch, Path: model.PathMapN, Cs: ct.Of(ct.S), N: 3, Init: model.InitFn, Fn: true},
+						model.Op{K: model.OpNew, Path: model.PathMapN, Cs: ct.Of(ct.Q, ct.S)},
+					)
+				}
+				ops = append(ops,
+					model.Op{K: model.OpAddBatch, Path: model.PathMapN, F: 8, Cs: ct.Of(ct.Q), Init: model.InitFn, Fn: true},
+					model.Op{K: model.OpRemoveBatch, Path: model.PathMapN, F: 7, Rm: ct.Of(ct.S)},
+					model.Op{K: model.OpExchangeBatch, F: 8, Cs: ct.Of(ct.T9), Rm: ct.Of(ct.S)},
+				)
 				// single moves to diversify the tables
 				for _, e := range pick2(with(m, ct.Of(ct.P))) {
 					if !m.Ents[e].Comps.Has(ct.Q) {
@@ -378,7 +413,7 @@ func init() {
 					ops = append(ops, model.Op{K: model.OpRemoveEntity, E: e})
 				}
 				if reg {
-					ops = append(ops, regOps(m, []int{1, 2, 3})...)
+					ops = append(ops, regOps(m, []int{1, 2, 3, 6})...)
 				}
 				return validOnly(m, ops)
 			}
@@ -389,16 +424,18 @@ func init() {
 			nil,
 			{mkP, mkP, mkPQ, {K: model.OpNew, Path: model.PathMapN, Cs: ct.Of(ct.P, ct.R1), T: rel(ct.R1, 0)}, {K: model.OpNew, Path: model.PathMapN, Cs: ct.Of(ct.P, ct.R1), T: rel(ct.R1, 1)}},
 			{mkP, mkP, mkPQ, {K: model.OpRegister, F: 1}, {K: model.OpRegister, F: 2}, {K: model.OpRegister, F: 3}, {K: model.OpNew, Path: model.PathMapN, Cs: ct.Of(ct.P, ct.R1), T: rel(ct.R1, 0)}},
+			{mkP, mkP, {K: model.OpRegister, F: 6},
+				{K: model.OpNew, Path: model.PathMapN, Cs: ct.Of(ct.R1, ct.R2), T: []model.RelT{{C: ct.R1, T: 0}, {C: ct.R2, T: 1}}},
+				{K: model.OpNew, Path: model.PathMapN, Cs: ct.Of(ct.R1, ct.R2), T: []model.RelT{{C: ct.R1, T: 0}, {C: ct.R2, T: 0}}},
+				{K: model.OpNew, Path: model.PathMapN, Cs: ct.Of(ct.R1, ct.R2), T: []model.RelT{{C: ct.R1, T: 1}, {C: ct.R2, T: 1}}},
+				{K: model.OpNew, Path: model.PathMapN, Cs: ct.Of(ct.S)}, {K: model.OpNew, Path: model.PathMapN, Cs: ct.Of(ct.Q, ct.S)}},
 		}
 		sc := &engine.Scenario{
-			Name: "C06-batch", Cfgs: cfgs([]int{1, 2}, []int{0}, one, u), Filters: filters, Slots: 1,
+			Name: "C06-batch", Cfgs: autoPad(cfgs([]int{1, 2}, []int{0}, one, u), 1), Filters: filters, Slots: 1,
 			Oracle:   drv.Oracle{World: true, Typed: true, Filters: true, Lock: true},
 			Preludes: pre, Alphabet: alpha(true), Depth: d,
 		}
-		if t == Quick {
-			sc.Depth = 3
-			sc.Cfgs = cfgs([]int{1, 2}, []int{0}, one, u)
-		}
+
 		return &Check{ID: "C06", Scenarios: []*engine.Scenario{sc},
 			Rule: "all histories over every batch operation (NewBatch/NewBatchFn, NewEntities, AddBatch via MapN/Map/ExchangeN with value / callback / nil callback, RemoveBatch, ExchangeBatch, SetRelationsBatch, RemoveEntities; cached and uncached batch filters, with and without per-batch targets) mixed with single moves, from 3 preludes; oracle: callback exactly once per model-selected entity with that entity's handle, unique values written through the callback pointers are read back from that entity, resulting world equals the model's fold of the single-entity operation, unselected entities untouched; non-trivial = >=1 alive entity"}
 	}
